@@ -1771,7 +1771,7 @@ def explore(ctx: runner.Ctx):
     if ctx.shard == 0:
         for case in fixed_cases():
             check_case(ctx, case)
-    ctx.given(st_case(), lambda case: check_case(ctx, case), ctx.budget(3200, 160000))
+    ctx.given(st_case(), lambda case: check_case(ctx, case), ctx.budget(6000, 200000))
 
 
 RULE = ("case = (model specs, src, dst, recipe, entry point + stub signature, call plan, values), generated "
